@@ -42,6 +42,13 @@ Theorem c03_no_duplicate_params : forall nd s, src_generics_nodup s = true -> No
 Proof. exact lifted_nodup. Qed.
 Print Assumptions c03_no_duplicate_params.
 
+(** No where predicate that the analysis of a function lifts to the trait names a lifetime parameter of that
+    function (such predicates stay on the method only). *)
+Theorem c03_no_method_lifetime_on_trait : forall tg s o d tg',
+  analyze_fn_deps tg s o = Ok (d, tg') -> winv_lt (life_names (s_gen s)) tg -> winv_lt (life_names (s_gen s)) tg'.
+Proof. exact analyze_fn_deps_ok_lt. Qed.
+Print Assumptions c03_no_method_lifetime_on_trait.
+
 (** The predicate the checker evaluates on the implementation's output holds of every model expansion
     outside the known class F3 (two functions of one module lifting a generic of the same name). *)
 Theorem c03_view_sound : forall v attr i items,
